@@ -229,6 +229,13 @@ def check(case, ctx):
     d = case["d"]
     ds = build_ds(dsp)
     free = {k: gen.build(sp) for k, sp in dsp["vars"].items()}     # free-standing twins
+    if what in ('reindex', 'sort_axis', 'reduce', 'arith', 'arith_scalar', 'neg', 'stack_ds', 'concat_ds'):
+        # (operations that match labels exactly: a look-up tolerance on an axis changes nothing, for the Dataset as for its variables)
+        import zlib
+        z_ = zlib.crc32(repr(sorted(dsp["axes"].items())).encode())
+        common.set_tols(ds, z_, ctx.outcomes)
+        for f_ in free.values():
+            common.set_tols(f_, z_)
     dimpos = list(ds.dims).index(d) if d in ds.dims else None
     axis = dimpos if case["by_pos"] and dimpos is not None else d
     lab, kind = dsp["axes"][d]
@@ -394,7 +401,7 @@ def check(case, ctx):
             exp = {k: expected(v) for k, v in free.items()}
         except Exception as e:
             exp_exc = e
-    res, exc = ctx.call(label, fn, operands=tuple(operands))
+    res, exc = ctx.call(label, fn, operands=tuple(operands), ambient=what in ('reduce', 'sort_axis', 'reindex', 'interp', 'arith', 'arith_scalar', 'neg', 'stack_ds', 'concat_ds'))
     vars_ = (case["list"][0] if what in ('stack_ds', 'concat_ds') else dsp)["vars"]
     nlack = sum(1 for v in vars_.values() if d not in v["dims"])
     klass = (what, case.get("form") or case.get("mode") or case.get("range") or case.get("f") or case.get("op"), case["by_pos"], nlack,
